@@ -116,6 +116,15 @@ async def send_fnc(cmd):
     ghost("sent").append(cmd)
 
 
+async def sleep_stub(delay, result=None):
+    """asyncio.sleep by contract: time passes (A14); the delay is recorded (ghost)."""
+    ghost("sleeps").append(delay)
+    return result
+
+
+SLEEP = {asyncio.sleep: sleep_stub}
+
+
 def make_context(retry_limit=MAX_RETRY_LIMIT):
     loop = FakeLoop()
     ctx = new_object(fsm.ProtocolContext, _protocol=FakeProtocol(loop), _loop=loop, echo_timeout=0.5, reply_timeout=0.5,
@@ -189,7 +198,7 @@ def dequeue_contract():
     check(len(ctx._que.items) == (0 if f1.done() else 1), "later entries stay queued")
 
 
-@harness("C08", cases=[(w,) for w in ("all_lost",)])
+@harness("C08", cases=[(w,) for w in ("all_lost",)], stubs=SLEEP)
 def retry_budget(pattern):
     """A command whose echo (or awaited reply) never arrives is transmitted exactly
     1 + min(max_retries, 3) times; the wait doubles after each unanswered attempt up to 8x;
@@ -248,7 +257,7 @@ class FakePkt:
         self.code = "0004"
 
 
-@harness("C08", cases=[(w,) for w in (True, False)])
+@harness("C08", cases=[(w,) for w in (True, False)], stubs=SLEEP)
 def any_loss_pattern(wait_for_reply):
     """Every schedule of 'timer fires' / 'the awaited packet arrives' over the attempts of one
     command: it is transmitted at most 1 + min(max_retries, 3) times -- exactly that often when
